@@ -354,7 +354,7 @@ PROPS = {
                          "the layout dump hook (src/verif.rs sstable::Tbl::layout) reads through the same block readers it describes"],
     },
     "C16": {
-        "lean": ["Skv.Props.C16"],
+        "lean": ["Skv.Props.C16", "Skv.Props.C12"],
         "audit": "Skv/Audit/C16.lean",
         "streams": [
             {"name": "tablefile", "harness": "c16", "driver": "c16", "quick_cases": 25, "thorough_cases": 120,
@@ -363,6 +363,10 @@ PROPS = {
             {"name": "storedir", "harness": "c16s", "driver": "c16s", "quick_cases": 12, "thorough_cases": 60,
              "nontrivial": lambda lines: sum(1 for l in lines if l.startswith("alter")) > 50,
              "judge": _c16_judge, "model_is_spec": True, "timeout": 3000},
+            # commit-log segments: the byte-exact WAL model of C12 (cuts, bit flips and byte overwrites concentrated on
+            # record headers and block boundaries; the reader must return a correct prefix and an error, never other records)
+            {"name": "walsegment", "harness": "c12", "driver": "c12", "quick_cases": 40, "thorough_cases": 400,
+             "nontrivial": _c12_nontrivial, "judge": pattern_judge},
         ],
         "rule": "(tablefile) table files written by the real TableWriter (block size {64..4096} x restart interval x partition size x "
                 "{none, snappy} x filter on/off): one bit of every byte (quick; every bit of every byte in the thorough tier), byte "
